@@ -4,6 +4,7 @@ THEOREMS = [
     "C07.pop_is_max_history",
     "C07.drain_sorted",
     "C07.no_loop_once_between_resets",
+    "C07.no_loop_once_engine_history",
     "C07.activation_group_once",
     "C07.focus_falls_back",
     "C07.fire_all_bounded_incremental",
@@ -22,9 +23,14 @@ RULE = ("cases = corpus (defect witnesses, hand-written corner cases) + N random
         "auto-focus flags, explicit created_at; get_next_activation with and without mark_rule_fired; arbitrary marks; set_focus; "
         "reset_fired_flags; clear; set_strategy), 1/8 are rule sets (1..4 rules `when C.x < limit then C.y += inc`, incl. always-true "
         "rules without no-loop and priorities up to the i32 extremes) run through IncrementalEngine::fire_all, "
-        "TypedReteUlEngine::fire_all and ReteUlEngine::fire_all on a watchdog thread (action budget + 30 s deadline -> `hang`). "
+        "TypedReteUlEngine::fire_all and ReteUlEngine::fire_all on a watchdog thread (action budget + 30 s deadline -> `hang`); 1/32 are "
+        "ENGINE HISTORIES (`H`): one IncrementalEngine, 2..4 fire_all calls with inserts / updates / retracts and sometimes a reset in "
+        "between, most rule sets with an always-true rule without no-loop below one or two no-loop rules, so that a call really stops at "
+        "max_iterations = 1000 and the NEXT call (no reset) shows what survived: the clause `a no-loop rule fires at most once between "
+        "resets` (C07.histOk) is evaluated over the whole history, every call must return at most 1000 names, under the same watchdog. "
         "Each case is run on the real code and on the Lean model; observations (returned activation, focus, stats after every call; "
-        "fired list and final counters) are diffed, and the Spec predicates C07.runOk / C07.runOkWeak / C07.fireAllOk are evaluated on the "
+        "fired list and final counters; per-call results of a history) are diffed, and the Spec predicates C07.runOk / C07.runOkWeak / "
+        "C07.fireAllOk / C07.histOk are evaluated on the "
         "implementation's observations. 1 in 6 agenda histories deliberately has equal (salience, created_at) pairs (flag T1): for those "
         "either order is accepted and only the tie-insensitive predicate runOkWeak is required. Non-trivial = at least two activations "
         "were returned (agenda) / at least one rule fired (engines); distinct = distinct case text.")
@@ -61,6 +67,7 @@ def classify(case, impl, model, oracle, kind):
 
 LEVEL_TEXT = ("Lean 4 theorems (kernel-checked, unbounded: every agenda state / every history, every rule set and loop body) about an "
               "executable model of AdvancedAgenda and of the three fire_all loops: pop_is_max, drain_sorted, no_loop_once_between_resets, "
+              "no_loop_once_engine_history (the same clause over any history of insert / update / retract / fire_all / reset calls on one IncrementalEngine, calls that stop at the bound included), "
               "activation_group_once, focus_falls_back, fire_all_bounded for IncrementalEngine (at most 1000 executed activations; skipped ones are not counted after fix-C06b and terminate by agenda size: fire_all_skips_terminate), ReteUlEngine (100 passes) and "
               "TypedReteUlEngine (100 passes, after fix-C07), and model_meets_spec for the observation-level predicates; tied to the Rust "
               "code by a correspondence check (model vs implementation after every call) and by evaluating the same Spec predicates on "
